@@ -208,7 +208,7 @@ PROPS = {
     "C18": {
         "lean": ["AriVerif.Props.C18"],
         "gen": ["Pool"],
-        "streams": [s_conc.meta_stream(["C18"], "meta-cosim"), s_conc.data_stream(["C02"], "data-cosim-threads"), s_init.stream_pool],
+        "streams": [s_conc.meta_stream(["C18"], "meta-cosim"), s_conc.data_stream(["C18", "C02"], "data-cosim-threads"), s_init.stream_pool],
         "trusted": [KERNEL, HARNESS, "the scheduler shim (harness/shim.py): Lock/RLock, Queue, Event, Thread, ThreadPoolExecutor (FIFO work queue, <= n running), scripted socket, virtual clock; line-level preemption via sys.settrace in the fine-grained streams",
                     "harness/extract.py for Gen/Pool.lean (pool sizing), mitigated by the constructor differential with cpu_count patched",
                     "concurrent.futures.ThreadPoolExecutor behaves as the shim's pool; cpu_count() is a parameter"],
